@@ -190,4 +190,10 @@ VARIANTS = [
          old="        pairwise_probabilities = []\n        for pair_a, pair_b in itertools.permutations(teams, 2):\n            pair_a_subset = self._calculate_team_ratings([pair_a])\n            pair_b_subset = self._calculate_team_ratings([pair_b])\n            mu_a = pair_a_subset[0].mu\n            sigma_a = pair_a_subset[0].sigma_squared\n            mu_b = pair_b_subset[0].mu\n            sigma_b = pair_b_subset[0].sigma_squared\n            pairwise_probabilities.append(\n                phi_major(\n                    (mu_a - mu_b) / math.sqrt(n",
          new="        pairwise_probabilities = []\n        for pair_a, pair_b in itertools.permutations(teams, 2):\n            if pair_a == pair_b:\n                pairwise_probabilities.append(0.0)\n                continue\n            pair_a_subset = self._calculate_team_ratings([pair_a])\n            pair_b_subset = self._calculate_team_ratings([pair_b])\n            mu_a = pair_a_subset[0].mu\n            sigma_a = pair_a_subset[0].sigma_squared\n            mu_b = pair_b_subset[0].mu\n            sigma_b = pair_b_subset[0].sigma_squared\n            pairwise_probabilities.append(\n                phi_major(\n                    (mu_a - mu_b) / math.sqrt(n"),
     dict(id="c09-margin-operands-swapped", fire=["C09"], file=BTP, old="(mu_a - mu_b) / math.sqrt(n * self.beta**2 + sigma_a + sigma_b)", new="(mu_b - mu_a) / math.sqrt(n * self.beta**2 + sigma_a + sigma_b)"),
+    # ------------------------------------------------------------------ round-3 additions
+    dict(id="silent-explicit-accumulation-loops", silent=["C02", "C04", "C05", "C06", "C07", "C09", "C10", "C11", "C16"], all5=True, file=PL,
+         old="            mu_summed = reduce(lambda x, y: x + y, map(lambda p: p.mu, team))\n            sigma_squared = reduce(lambda x, y: x + y, map(lambda p: p.sigma**2, team))",
+         new="            mu_summed = 0.0\n            sigma_squared = 0.0\n            for member in team:\n                mu_summed += member.mu\n                sigma_squared += member.sigma**2"),
+    dict(id="c14-prediction-writes-ratings", fire=["C14", "C09"], file=TMP, old="        n = len(teams)\n        denominator = (n * (n - 1)) / 2\n",
+         new="        n = len(teams)\n        for team in teams:\n            for player in team:\n                player.sigma = math.sqrt(player.sigma * player.sigma + self.tau * self.tau)\n        denominator = (n * (n - 1)) / 2\n"),
 ]
